@@ -37,7 +37,19 @@ FORMS = ["line-kw-file", "marker-file-flags", "marker-bare", "pragma-text", "pra
 TRAILING_FORMS = ["pragma-text-trailing", "pragma-blanks-only"]
 
 
+# directive forms with an unusual file name: "name:<style>:<index into
+# lexvocab.DIRECTIVE_FILE_NAMES>", styles: line / line-flags / marker / marker-flags
+NAME_STYLES = ["line", "line-flags", "marker", "marker-flags"]
+NAME_FORMS = ["name:%s:%d" % (st, i) for i in range(len(lexvocab.DIRECTIVE_FILE_NAMES))
+              for st in NAME_STYLES]
+
+
 def _mk_directive(form, k=0, indent="", hash_gap=None):
+    if form.startswith("name:"):
+        _, style, idx = form.split(":")
+        return layout.line_directive(60 + 100 * k, lexvocab.DIRECTIVE_FILE_NAMES[int(idx)],
+                                     (1, 3) if style.endswith("flags") else (),
+                                     keyword=style.startswith("line"), indent=indent, hash_gap=hash_gap)
     if form == "line-kw-file":
         return layout.line_directive(40 + 100 * k, "f%d.h" % k, keyword=True, indent=indent,
                                      hash_gap=hash_gap)
@@ -171,6 +183,12 @@ def check_case(case):
     if r.final_filename != lay.final_file:
         fails.append(("pos:file@end-of-input",
                       f"filename after end of input {r.final_filename!r}, model {lay.final_file!r}"))
+    if fails and any(str(d[1]).startswith("name:") and
+                     int(d[1].split(":")[2]) == lexvocab.NAME_ENDING_IN_ESCAPED_QUOTE
+                     for d in case.get("directives", [])):
+        # separately signed: a directive file name whose last character is an
+        # escaped quote ("a\"")
+        fails = [("pos:file:name-ending-in-escaped-quote", fails[0][1])]
     return fails, info
 
 
@@ -281,6 +299,29 @@ def _kwvar_work(task):
             for b in lexvocab.FULL:
                 _run_cases(({"tokens": t, "seps": ["", s, ""], "lookup": lk}
                             for s in pair_seps for t in ([v, b], [b, v])), acc)
+    return _fin_acc(acc, s0)
+
+
+def _name_work(task):
+    """#line directives / linemarkers whose file name contains escaped quotes,
+    escaped backslashes, blanks: every vocabulary token before and after the
+    directive, every gap, with and without flags, with and without a final
+    newline; thorough: every token x the triple vocabulary."""
+    firsts, tier = task
+    acc = _new_acc()
+    s0 = (lexref.STATS["chars"], lexref.STATS["items"])
+    n = len(lexvocab.FULL)
+    for a in firsts:
+        i = lexvocab.FULL.index(a)
+        others = [lexvocab.FULL[(i + 1) % n]] + (lexvocab.TRIPLE if tier != "quick" else [])
+        for b in others:
+            for f in NAME_FORMS:
+                _run_cases(({"tokens": [a, b], "seps": ["", " ", ""], "directives": [[g, f, 0, ""]]}
+                            for g in range(3)), acc)
+                _run_cases([{"tokens": [a, b], "seps": ["", " ", ""], "directives": [[2, f, 0, ""]],
+                             "end_newline": False},
+                            {"tokens": [a, b], "seps": [" ", "\n", "\t"],
+                             "directives": [[1, f, 0, " \t", "\t"], [1, "marker-bare", 1, ""]]}], acc)
     return _fin_acc(acc, s0)
 
 
@@ -584,6 +625,14 @@ def run(tier):
     for acc in core.pmap(_kwvar_work, [([v], tier) for v in lexvocab.KEYWORD_VARIANTS], chunksize=4):
         merge(acc)
     kwvar_n = tot["n"] - pairs_n
+    before = tot["n"]
+    for acc in core.pmap(_name_work, [([a], tier) for a in lexvocab.FULL], chunksize=4):
+        merge(acc)
+    names_n = tot["n"] - before
+    kwvar_n += names_n          # (kept out of the plain pair count below)
+    if names_n < len(lexvocab.FULL) * len(NAME_FORMS) * 5:
+        R.fail("vacuous:directive-file-names", {"cases": names_n}, "file-name directive part not explored")
+    R.set("directive_file_name_cases", names_n)
     pairs_n = tot["n"]
     triples_n = 0
     if not quick:
@@ -625,9 +674,9 @@ def run(tier):
     R.set("distinct_outcomes", len(tot["outcomes"]))
     R.set("distinct_expected_token_types", len(tot["types"]))
     R.set("pair_cases", pairs_n - kwvar_n)
-    R.set("keyword_lookalike_cases", kwvar_n)
+    R.set("keyword_lookalike_cases", kwvar_n - names_n)
     R.set("keyword_lookalikes", len(lexvocab.KEYWORD_VARIANTS))
-    if kwvar_n < len(lexvocab.KEYWORD_VARIANTS) * len(lexvocab.FULL) * 2 * 2 * 4:
+    if kwvar_n - names_n < len(lexvocab.KEYWORD_VARIANTS) * len(lexvocab.FULL) * 2 * 2 * 4:
         R.fail("vacuous:keyword-lookalikes", {"cases": kwvar_n}, "keyword look-alike part not explored")
     R.set("triple_cases", triples_n)
     R.set("cases_with_directives", tot["with_directive"])
@@ -637,7 +686,8 @@ def run(tier):
     R.set("char_strings_nonblank", chars_nt)
     R.set("bounds", {
         "vocabulary": V, "separators": lexvocab.SEPARATORS_QUICK if quick else lexvocab.SEPARATORS_THOROUGH,
-        "directive_forms": FORMS + TRAILING_FORMS, "directive_sequences": 1 if quick else 2,
+        "directive_forms": FORMS + TRAILING_FORMS,
+        "directive_file_names": lexvocab.DIRECTIVE_FILE_NAMES, "directive_file_name_styles": NAME_STYLES, "directive_sequences": 1 if quick else 2,
         "directive_shapes(hash_gap,indent)": [["", ""]] + [[h, i] for h, i in DIRECTIVE_SHAPES],
         "pragma_tokens_in_stream": lexvocab.PRAGMA_TOKENS,
         "triple_vocabulary": 0 if quick else len(lexvocab.TRIPLE),
